@@ -303,6 +303,8 @@ def run(fx, chk, tier):
     import units
     chk.rule("R-TABLE", "enum-code and packed-language conversions of configured values equal their tables and are mutually inverse (C16 R3/R5 instances)")
     compose(fx, chk, tier, "R-TABLE", "C16", ["R3", "R5"], floor=120, what="conversion-table obligations")
+    chk.rule("R-PACK", "codec parameters packed into bit fields (AAC object type / frequency index / channel configuration, AVC and HEVC configuration bytes) are routed to the same bits on write and on read (C05 R3 instances)")
+    compose(fx, chk, tier, "R-PACK", "C05", ["R3"], floor=34, what="packed-word obligations")
     chk.rule("R-DUR", "duration bookkeeping is dimensionally consistent (media vs movie ticks) and no duration is truncated on the wire (C13 R-CAST instances)")
     units.run_rule(fx, chk, "R-DUR", units.MUXER_ENTRIES, regions=(None,), widths=False, floor=20, what="in the duration bookkeeping",
                    only=lambda f: "update_durations" in f or f.endswith("::write_sample") or f.endswith("Writer<W>::write_end"))
